@@ -55,7 +55,7 @@ func (n *c04Node) any(f func(*c04Node) bool) bool {
 
 func (n *c04Node) isCall() bool {
 	switch n.tag() {
-	case c04Call, c04Move, c04MoveNeo, c04SetFee, c04NotifyFee:
+	case c04Call, c04Move, c04MoveNeo, c04SetFee, c04NotifyFee, c04CallMut:
 		return true
 	}
 	return false
@@ -67,7 +67,7 @@ func (n *c04Node) bareFree() bool {
 		return true
 	}
 	switch n.tag() {
-	case c04Call:
+	case c04Call, c04CallMut:
 		return false
 	case c04Seq:
 		for _, o := range n.Ops {
@@ -133,8 +133,13 @@ func (g *c04Gen) leaf() *c04Node {
 		return &c04Node{Op: "del", K: r.intn(c04NKeys)}
 	case x < 55:
 		return &c04Node{Op: "notify", V: r.intn(10)}
-	case x < 70:
+	case x < 63:
 		return &c04Node{Op: "notifyval", K: r.intn(c04NKeys)}
+	case x < 70: // read a stored value, make a Buffer of it, scribble on the Buffer
+		if !g.noCalls && (!g.noBare || g.inTry) && r.chance(35) {
+			return &c04Node{Op: "callmut", K: r.intn(c04NKeys), C: r.intn(c04NContracts), V: r.intn(c04HowFind)}
+		}
+		return &c04Node{Op: "mut", K: r.intn(c04NKeys), V: r.intn(c04NHow)}
 	case x < 75 && !g.noCalls:
 		return &c04Node{Op: "notifyfee"}
 	case x < 80 && !g.noCalls:
@@ -643,6 +648,9 @@ func (p *c04Pair) runCase(co *caseOut, in c04Input) {
 	if root.any(func(x *c04Node) bool { return x.T }) {
 		tag += "/callt"
 	}
+	if root.any(func(x *c04Node) bool { return x.tag() == c04Mut || x.tag() == c04CallMut }) {
+		tag += "/mut"
+	}
 	co.add(kind, tag, root.hasFailure(), in, impl, term)
 }
 
@@ -849,6 +857,42 @@ func runC04(args []string) error {
 	for i := 0; i < n/5; i++ {
 		entry := r.chance(45)
 		runOps(c04NestPlace(r, c04NestTry(r, 2+r.intn(2), entry), entry))
+	}
+	// 3c. in-place mutation of Buffers derived from stored values: every bytes->Buffer instruction x the value written by
+	//     the caller in this transaction / present before (earlier transaction, earlier block, flushed or not) x the
+	//     mutating callee returns / throws (caught) / aborts; and the value passed to another contract that mutates it
+	for how := 0; how < c04NHow && !broken; how++ {
+		for variant := 0; variant < 6; variant++ {
+			k := r.intn(c04NKeys)
+			var body []*c04Node
+			if variant%2 == 0 {
+				body = append(body, &c04Node{Op: "put", K: k, V: 1 + r.intn(9)})
+			}
+			var m *c04Node
+			if how < c04HowFind && r.chance(40) {
+				m = &c04Node{Op: "callmut", K: k, C: 1 + r.intn(2), V: how}
+			} else {
+				m = &c04Node{Op: "mut", K: k, V: how}
+			}
+			cal := []*c04Node{m}
+			switch variant / 2 {
+			case 1:
+				cal = append(cal, &c04Node{Op: "throw"})
+			case 2:
+				cal = append(cal, &c04Node{Op: "abort", V: r.intn(3)})
+			}
+			body = append(body, &c04Node{Op: "try", Body: &c04Node{Op: "call", C: 0, Flags: 15, T: r.bool(), Body: c04SeqOf(cal)}, Catch: &c04Node{Op: "skip"}},
+				&c04Node{Op: "notifyval", K: k})
+			if ncase%3 == 0 { // the value sits in the persistent store, not only in the node's write cache
+				if _, err := p.a.bc.VerifPersist(); err != nil {
+					panic(err)
+				}
+				if _, err := p.b.bc.VerifPersist(); err != nil {
+					panic(err)
+				}
+			}
+			runOps([]*c04Node{{Op: "call", C: 0, Flags: 15, Body: c04SeqOf(body)}})
+		}
 	}
 	// 4. block position: several transactions on the one reused VM, earlier ones ending in every way
 	for i := 0; i < n/4 && !broken; i++ {
